@@ -168,6 +168,37 @@ def gen_case(rng, cid, tier, algo=None, profile=None):
             "gs": [[H(x) for x in g] for g in G], "train": None}
 
 
+SCALES = [1.0, 1e-3, 1e-7, 3e-8, 1e4]
+DELTAS = [0.3, 1e-6, 1e-14, 2e-16]
+
+
+def scale_family(rng, tier):
+    """gradient scale x delta grid (delta > 0): the closed forms and full-matrix AdaGrad are scale free, so the
+    iterates must follow them at tiny and large scales alike. S_ADA: rank < sketch size (lossless clause) and generic;
+    the other algorithms: generic histories."""
+    import numpy as np
+    out = []
+    reps = 1 if tier == "quick" else 4
+    for rep in range(reps):
+        for sc in SCALES:
+            for dl in DELTAS:
+                for algo, profile in (("S_ADA", "lowrank"), ("S_ADA", "lowrank_int"), ("S_ADA", "gauss"), ("OGD", "gauss"), ("ADA", "gauss"),
+                                      ("ADA_FD", "gauss"), ("FD_SON", "lowrank"), ("RFD_SON", "gauss")):
+                    n = rng.randint(3, 8)
+                    k = 0 if algo in ("OGD", "ADA") else rng.randint(2 if profile == "gauss" else 3, n) if n >= 3 else 2
+                    T = rng.randint(2, 12)
+                    nprng = np.random.RandomState(rng.randrange(2 ** 31))
+                    G = gen_history(nprng, rng, profile, T, n, k)
+                    if profile == "gauss":
+                        G = nprng.randn(T, n)
+                    G = G * sc
+                    lr = rng.choice([0.125, 0.5, 1.0, 10.0 ** rng.uniform(-2, 0.3)])
+                    out.append({"id": f"scale-{rep}-{sc:g}-{dl:g}-{algo}-{profile}", "algo": algo, "shape": [n], "k": k,
+                                "delta": H(dl), "lr": H(lr), "profile": "scalefam:" + profile,
+                                "gs": [[H(x) for x in g] for g in G], "train": None})
+    return out
+
+
 def fixed_cases():
     """hand-picked histories that always run (degenerate spectra, zero first gradient, rank exactly k-1, k = n)"""
     import numpy as np
@@ -401,7 +432,7 @@ def oracle_sketched(ctx, case, states, stats):
             bad.append(f"step {t}: bracket S <= C <= S + (sum rho) I fails: min eig {lo:.3e} / {hi:.3e}")
         if algo == "S_ADA":
             hi2 = float(np.linalg.eigvalsh(S + (alpha - delta) * np.eye(n) - C)[0])
-            if hi2 < -tol:
+            if hi2 < -(tol + 4.5e-16 * abs(alpha)):      # alpha = fl(delta + sum rho): alpha - delta is known to an ulp of alpha
                 bad.append(f"step {t}: C <= S + (alpha - delta) I fails: min eig {hi2:.3e}")
         # step closed form
         dw = (st["w"] - states[t - 1]["w"]).ravel()
@@ -416,18 +447,34 @@ def oracle_sketched(ctx, case, states, stats):
                 bad.append(f"step {t}: increment of w {dw.tolist()} != -lr phi(S, alpha) g = {dw_exp.tolist()} (tol {tl[0]:.2e})")
             stats["oracle_w_tight" if close(dw, dw_exp, tl[1]) else "oracle_w_within_conditioning_bound"] += 1
         if lossless:
-            if abs(alpha - delta) > 1e-12 * scale:
+            if abs(alpha - delta) > 1e-12 * scale + 4.5e-16 * delta:
                 bad.append(f"step {t}: lossless regime (history rank {hist_rank} < sketch size {k}) but alpha - delta = {alpha - delta:.3e}")
-            x, U = np.linalg.eigh(delta * np.eye(n) + Cg)
-            w_full = w_full - lr * (U @ ((U.T @ g) / np.sqrt(x)))
-            tlf = w_step_tol("S_ADA", delta, scale, float(np.linalg.norm(g)), lr, wmax)
-            if tlf is None:
+            # exact full-matrix AdaGrad step (delta I + G^T G)^(-1/2) g from the SVD of the history so far (float64):
+            # in-span part through the singular values, the rest of g (round-off only) through delta^(-1/2)
+            _u, sg, Vh = np.linalg.svd(gs[:t], full_matrices=False)
+            keep = sg > 1e-11 * sg[0] if sg.size and sg[0] > 0 else np.zeros(sg.shape, dtype=bool)
+            Vr, lam = Vh[keep], sg[keep] ** 2
+            cg = Vr @ g
+            step = Vr.T @ (cg / np.sqrt(delta + lam)) + (g - Vr.T @ cg) / math.sqrt(delta)
+            w_full = w_full - lr * step
+            lam_min = float(lam.min()) if lam.size else scale
+            # RELATIVE tolerance, scale free: round-off leaking out of the span is amplified by sqrt(B2/delta), an in-span
+            # eigenvalue is known to eps*B2
+            rel = 1e-10 + 3e-14 * math.sqrt(1.0 + scale / delta) + 1e-13 * scale / (lam_min + delta)
+            info["lossless_rel_tol_max"] = max(info.get("lossless_rel_tol_max", 0.0), rel)
+            if rel > 1e-3:
                 info["skipped_w"] += 1
+                info["lossless_w_unjudged"] = True
                 lossless = False
             else:
-                full_tol += tlf[0]
-                if not close(st["w"].ravel(), w_full, full_tol):
-                    bad.append(f"step {t}: lossless S-AdaGrad iterate {st['w'].ravel().tolist()} != full-matrix AdaGrad {w_full.tolist()} (tol {full_tol:.2e})")
+                full_tol += rel * lr * float(np.linalg.norm(step))
+                info["lossless_w_judged"] = True
+                with np.errstate(invalid="ignore"):
+                    info["lossless_dev_over_tol_max"] = max(info.get("lossless_dev_over_tol_max", 0.0), float(np.max(np.abs(st["w"].ravel() - w_full))) / (full_tol + 1e-14 * wmax + 1e-300))
+                if not close(st["w"].ravel(), w_full, full_tol + 1e-14 * wmax):
+                    dev = float(np.nanmax(np.abs(st["w"].ravel() - w_full)))
+                    bad.append(f"step {t}: lossless S-AdaGrad iterate {st['w'].ravel().tolist()} != full-matrix AdaGrad {w_full.tolist()} "
+                               f"(max dev {dev:.3e}, relative to |w| {dev / max(float(np.max(np.abs(w_full))), 1e-300):.2e}, tol {full_tol:.2e})")
         S_prev = S
         if bad:
             break
@@ -707,6 +754,12 @@ def execute(ctx, cases, stats):
             if info["lossless"]:
                 ctx.nontrivial(key)
                 stats["lossless_clause_exercised"] += 1
+                if info.get("lossless_w_judged"):
+                    stats["lossless_iterates_judged_vs_full_matrix_adagrad"] += 1
+                if info.get("lossless_w_unjudged"):
+                    stats["lossless_iterates_unjudged(relative tol > 1e-3: B2/delta > ~1e21)"] += 1
+                if c["profile"].startswith("scalefam"):
+                    stats["lossless_scale_family" + ("" if info.get("lossless_w_judged") else "_unjudged")] += 1
             stats["oracle_w_steps_skipped(alpha<=0 or kappa>1e7)"] += info["skipped_w"]
         else:
             bad = oracle_simple(ctx, c, states, stats)
@@ -777,6 +830,7 @@ def run(ctx):
     cases = corpus_cases()
     ncorpus = len(cases)
     cases += fixed_cases()
+    cases += scale_family(rng, ctx.tier)
     nrand = 720 if ctx.tier == "quick" else 5400
     for i in range(nrand):
         cases.append(gen_case(rng, f"r{ctx.seed}-{i}", ctx.tier, algo=ALGOS[i % 6]))
@@ -796,6 +850,9 @@ def run(ctx):
         "t, last sketch row and last root-eigenvalue: EXACT; initial states EXACT",
         "Ada-FD with delta = 0 yields NaN iterates (0/0 in e/(alpha+e)) in code and model alike; the property states nothing about them, "
         "only the sketch observables are judged there",
+        "lossless iterates are compared with exact full-matrix AdaGrad (float64, SVD of the history) at the RELATIVE tolerance "
+        "1e-10 + 3e-14 sqrt(1 + B2/delta) + 1e-13 B2/(lambda_min + delta), accumulated over the steps; no kappa exclusion applies there "
+        "(unjudged only when that tolerance exceeds 1e-3); scale family: gradient scale {1,1e-3,1e-7,3e-8,1e4} x delta {0.3,1e-6,1e-14,2e-16}",
         "lossless clause judged when the numerical rank (singular values > 1e-11 s_1, next one <= 1e-14 s_1) of the history is below the sketch size",
     ]
     obs = execute(ctx, cases, stats)
